@@ -154,6 +154,12 @@ pub fn answer_fn(f: u32, mid: u8) -> impl Fn(&Unimock, u8) -> i64 + Send + Sync 
         } else if f % 10 == 7 {
             let _parked: &Unimock = u.make_ref(u.clone());
             leaf
+        } else if f % 10 == 6 {
+            // lend a value unique to this call through the mock and read it back: another call's value would show
+            static SERIAL: std::sync::atomic::AtomicI64 = std::sync::atomic::AtomicI64::new(1);
+            let k = SERIAL.fetch_add(1, std::sync::atomic::Ordering::SeqCst);
+            let r: &i64 = u.make_ref(k);
+            if *r == k { leaf } else { 777_777 }
         } else if f % 10 == 8 {
             leaf + call_method(u, sibling(mid, 1), 0)
         } else {
